@@ -29,7 +29,7 @@ META = {
     "design_ref": "DESIGN.md §6 C19",
 }
 
-HDR = "From Dawn Require Import Config.Model Config.File Config.Run.\nOpen Scope N_scope.\n"
+HDR = "From Dawn Require Import Config.Model Config.File Config.Session Config.Run.\nOpen Scope N_scope.\n"
 
 
 def hb(h):
@@ -39,6 +39,38 @@ def hb(h):
 def cq_cfg(c):
     reqs = cq_list(["(mkReq %s %s %s)" % (hb(n), hb(p), hb(v)) for n, p, v in c["reqs"]], "req")
     return "(mkConfig %s %s %s %s)" % (hb(c["name"]), hb(c["version"]), cq_list([hb(x) for x in c["ignore"]], "str"), reqs)
+
+
+def cq_optf(x, f):
+    return "None" if x is None else "(Some %s)" % f(x)
+
+
+def cq_session(r):
+    """a session record -> CSession term: the operations that ran (chdir / retarget only change which file a spelling names,
+    and every operation carries the file its spelling named, so they do not appear), what the loads returned, the files left"""
+    init = cq_list(["(%s, [])" % cq_N(f) for f, present in enumerate(r["init"]) if present], "(N * str)")
+    ops, loads = [], []
+    for o in r["ops"]:
+        if o["op"] == "write":
+            ops.append("OWrite %s %s %s" % (cq_N(o["sp"]), cq_N(o["file"]), cq_cfg(o["cfg"])))
+        elif o["op"] == "load":
+            ops.append("OLoad %s %s" % (cq_N(o["sp"]), cq_N(o["file"])))
+            loads.append("None" if o["err"] else "(Some %s)" % cq_cfg(o["loaded"]))
+    final = cq_list(["(%s, %s)" % (cq_N(f), cq_optf(b, hb)) for f, b in enumerate(r["final"])], "(N * file)")
+    return "CSession %s %s %s %s" % (init, cq_list(ops, "op"), cq_list(loads, "(option config)"), final)
+
+
+def show_ops(ops):
+    out = []
+    for o in ops:
+        if o["op"] == "write":
+            out.append({"WriteConfigFile": o["spelling"], "names_file": o["file"], "config": show_cfg(o["cfg"])})
+        elif o["op"] == "load":
+            out.append({"LoadConfigFile": o["spelling"], "names_file": o["file"],
+                        "returned": "error" if o["err"] else show_cfg(o["loaded"])})
+        else:
+            out.append({o["op"]: o["to"]})
+    return out
 
 
 def show_cfg(c):
@@ -99,6 +131,8 @@ def run(ctx):
                 rwstats[k] = rwstats.get(k, 0) + v
         elif r["t"] == "NOTE":
             notes.append(r)
+        elif r["t"] == "session":
+            add(cq_session(r), r, "session:" + r["kind"])
         elif r["t"] == "rw":
             # the file at a path that was in state `old` (None = absent) after WriteConfigFile(path, cfg)
             add("CRewrite %s %s %s" % ("None" if r["old"] is None else "(Some %s)" % hb(r["old"]), cq_cfg(r["cfg"]), hb(r["bytes"])),
@@ -150,6 +184,20 @@ def run(ctx):
     for name, rs in groups.items():
         r = min(rs, key=lambda x: len(x["bytes"]) + len(x.get("old") or "") + len(json.dumps(x["cfg"])))
         shrunk = show_cfg(r["orig"]) if r.get("orig") and r["orig"] != r["cfg"] else None
+        if "session" in r:   # a process: the failing input is the sequence of operations
+            se = r["session"]
+            ctx.violation("implementation violates C19 oracle %s: after %s (%d failing sessions)"
+                          % (name, "; ".join("%s(%s)" % (o["op"], o.get("spelling", o.get("to"))) for o in se["ops"]), len(rs)),
+                          {"oracle": name, "operations": show_ops(se["ops"]), "failing_operation": se["failing_op"],
+                           "files_exist_empty_at_start": se["init"], "last_configuration_written": show_cfg(r["cfg"]),
+                           "detail": r["detail"], "found_in": r.get("from"),
+                           "how": "in ONE process, in a fresh directory $W with real/, real/sub/, other/, link -> real, cur -> real, "
+                                  "real/alias.toml -> dawn.toml (and real/hard.toml, a hard link, when real/dawn.toml exists at the "
+                                  "start), working directory $W/real: the operations in order; every LoadConfigFile of a file that was "
+                                  "written must return the last configuration written to that file through any spelling; "
+                                  "harness/overlay/internal/project/zz_verif_c19_test.go (playSession)"},
+                          key=name)
+            continue
         if "fresh" in r:   # rewriting in place: the destination's previous state is part of the failing input
             was = "no file" if r["old"] is None else ("%d bytes %r" % (len(r["old"]) // 2, txt(r["old"])[:80]))
             ctx.violation("implementation violates C19 oracle %s: WriteConfigFile of %s over a destination holding %s (%d failing rewrites)"
@@ -216,6 +264,8 @@ def run(ctx):
                 return {"case": cases[i].split(" ")[0], "kind": d["kind"], "config": show_cfg(d["cfg"]),
                         "bytes": bytes.fromhex(d["bytes"]).decode("utf-8", "backslashreplace"),
                         "loaded": None if d["lerr"] else show_cfg(d["loaded"])}
+            if d["t"] == "session":
+                return {"case": "CSession", "kind": d["kind"], "operations": show_ops(d["ops"]), "files_left": d["final"]}
             if d["t"] == "rw":
                 return {"case": "CRewrite", "previous_state": d["prior"], "config": show_cfg(d["cfg"]),
                         "destination_before": None if d["old"] is None else txt(d["old"]), "destination_after": txt(d["bytes"])}
